@@ -197,6 +197,39 @@ example : (∀ s, (fun s : OmpState => !s.wrapped) (ompDeclare true s) = (fun s 
   refine ⟨?_, by decide, by decide⟩
   intro s; cases s; simp [ompDeclare]
 
+/-! ### OMPTaskTrans -/
+
+def C26_OMPTaskTrans_pinned_statement : Prop :=
+  ∀ (collapseSet : Bool) (v : TaskState → Bool), Atomic (ompTaskPinned collapseSet v)
+
+/-- Pinned code: with a `collapse` option the refusal comes after inlining and after the loop was detached. -/
+theorem C26_OMPTaskTrans_pinned_counterexample : ¬ C26_OMPTaskTrans_pinned_statement := by
+  intro h
+  have := h true (fun _ => true) ⟨false, false, false⟩ (by decide)
+  revert this
+  decide
+
+/-- Fixed code: atomic, for every validate that is not affected by the inlining. -/
+theorem C26_OMPTaskTrans (collapseSet : Bool) (v : TaskState → Bool)
+    (hv : ∀ s, v { s with inlined := true } = v s) : Atomic (ompTaskFixed collapseSet v) := by
+  apply C26_atomic_validate_first
+  simp only [NoRefuse, validateThen]
+  refine ⟨?_, trivial⟩
+  rintro s ⟨s0, h0, rfl⟩
+  simp only [Bool.and_eq_true, Bool.not_eq_true'] at h0
+  refine ⟨?_, ?_, trivial⟩
+  · rintro x rfl
+    simp [hv, h0.1, h0.2]
+  · rintro x ⟨y, rfl, rfl⟩
+    simp [h0.2]
+
+example : run (ompTaskFixed true (fun _ => true)) ⟨false, false, false⟩ = (⟨false, false, false⟩, .refused) := by
+  decide
+example : run (ompTaskFixed false (fun _ => true)) ⟨false, false, false⟩ = (⟨true, true, true⟩, .accepted) := by
+  decide
+example : run (ompTaskPinned true (fun _ => true)) ⟨false, false, false⟩ = (⟨true, true, false⟩, .refused) := by
+  decide
+
 /-! ### ArrayReductionBaseTrans -/
 
 def C26_ArrayReduction_pinned_statement : Prop :=
@@ -317,7 +350,7 @@ def tab0 : Tab := { bound := 4, tags := fun _ => none }
 def rect : Stmt := .loop (hdr 0 [] [2]) (.loop (hdr 1 [] [2]) (.leaf [3] false false .nil) .nil) .nil
 def triangular : Stmt := .loop (hdr 0 [] [2]) (.loop (hdr 1 [0] [2]) (.leaf [3] false false .nil) .nil) .nil
 
-theorem wf_tab0 : WF tab0 := ⟨fun _ _ h => by simp [tab0] at h, fun _ _ _ h => by simp [tab0] at h⟩
+theorem C26_example_tab_wf : WF tab0 := ⟨fun _ _ h => by simp [tab0] at h, fun _ _ _ h => by simp [tab0] at h⟩
 
 /-- non-vacuity: the rectangular nest is accepted and becomes the 4-deep tiled nest … -/
 example : (run (tilingProg ⟨.int 4, false⟩) ⟨rect, tab0⟩).2 = .accepted := by decide
@@ -334,7 +367,7 @@ example : (run (tilingProg ⟨.int 4, false⟩) ⟨triangular, tab0⟩).2 = .ref
     ∧ (run (tilingProg ⟨.int 4, false⟩) ⟨triangular, tab0⟩).1.nest = triangular := by decide
 example : (run (tilingProg ⟨.int 0, false⟩) ⟨rect, tab0⟩).2 = .refused := by decide
 example : (run (tilingProg ⟨.absent, true⟩) ⟨rect, tab0⟩).2 = .refused := by decide
-example : WF tab0 ∧ tilingValidate ⟨.int 4, false⟩ ⟨rect, tab0⟩ = true := ⟨wf_tab0, by decide⟩
+example : WF tab0 ∧ tilingValidate ⟨.int 4, false⟩ ⟨rect, tab0⟩ = true := ⟨C26_example_tab_wf, by decide⟩
 
 /-- The well-formedness hypothesis is needed: if one symbol carries both the tag `j_el_inner` and the tag
     `i_out_var` the nested LoopSwapTrans refuses after both loops have been chunked. -/
